@@ -5,9 +5,11 @@
    create/join/leave) is [ECmd true]; any other command [ECmd false]; Raft's own entries
    [ENoop]; PUBLISH_ACTIVITY j is [ERec j].
 
-   Variant switch v (true = repaired code): the FSM snapshot carries lastPublishedRaftIndex and
-   the dispatcher starts no lower than the first index still in the log store.  The pinned code
-   lost the index with the compacted PUBLISH_ACTIVITY entries and started at lastPublished+1. *)
+   Variant switch v (true = repaired code): the FSM snapshot carries lastPublishedRaftIndex, the
+   dispatcher starts no lower than the first index still in the log store, and when the entry it
+   stands at has been compacted meanwhile it continues at that first index.  The pinned code lost
+   the index with the compacted PUBLISH_ACTIVITY entries, started at lastPublished+1 and panicked
+   on an entry that is gone. *)
 From LB Require Import Base.Prelude.
 From Coq Require Import Arith.
 
@@ -52,11 +54,12 @@ Fixpoint replay_lastpub (log : list entry) (pos : nat) (from : nat) (acc : nat) 
   end.
 
 (* may the log be compacted so that newfirst becomes its first index?  Only entries whose events
-   are published and recorded go, and never the one the dispatcher stands at (Raft's
-   trailing-log allowance is what provides this in production). *)
+   are published and recorded go (Raft's trailing-log allowance is what provides this in
+   production).  The dispatcher itself may stand at a lower index: entries that are not commands
+   (barriers, no-ops) do not wake it, so it trails behind them until the next command commits.
+   The repaired dispatcher then continues at the first entry there is; the pinned one panics. *)
 Definition compact_ok (s : ast) (newfirst : nat) : bool :=
-  forallb (fun j => negb (is_ev (a_log s) j) || (j <=? a_lastpub s)) (seq 1 (newfirst - 1)) &&
-  match a_disp s with Some i => newfirst <=? i | None => true end.
+  forallb (fun j => negb (is_ev (a_log s) j) || (j <=? a_lastpub s)) (seq 1 (newfirst - 1)).
 
 Definition astep (v : bool) (s : ast) (x : step) : res :=
   match x with
@@ -77,7 +80,9 @@ Definition astep (v : bool) (s : ast) (x : step) : res :=
     | None => NotEnabled
     | Some i =>
       if length (a_log s) <? i then NotEnabled          (* caught up: waits for a commit *)
-      else if i <? a_first s then Panic                 (* GetLog fails: panic(err) *)
+      else if i <? a_first s then                       (* GetLog fails *)
+        (if v then Ok (mkAst (a_log s) (a_first s) (a_lastpub s) (a_snap s) (a_snap_idx s) (a_stream s) (Some (a_first s)))
+         else Panic)                                     (* pinned: panic(err) *)
       else match entry_at (a_log s) i with
            | Some (ECmd true) =>
              match o with
